@@ -593,7 +593,7 @@ fn aggregate_batches_vectorized(
 
             for &gid in &gt.buckets[bucket] {
                 let (ref_batch, ref_row) = gt.group_key_refs[gid as usize];
-                if vectorized_hash::compare_row(
+                if vectorized_hash::compare_row_grouping(
                     &all_key_arrays[ref_batch],
                     ref_row,
                     &all_key_arrays[batch_idx],
